@@ -385,7 +385,8 @@ class Bus {
       uint8_t cmd = (f >> 2) & 0xf, d = (uint8_t)(((f & 3) << 6) | (b & 0x3f));
       if (cmd == 0) enhFrame(g.now, 0, 0x01);                    // INIT -> RESETTED with info feature
       else if (cmd == 1) hostBusByte(d);                         // SEND
-      else if (cmd == 2) enhArbAddr = d;                         // START (SYN cancels)
+      else if (cmd == 2) { if (!(d == 0xAA && enhArbPending)) enhArbAddr = d; }   // START (SYN cancels, unless the SYN the adapter
+                                                                                 // waited for has passed: the address is on its way then)
       else if (cmd == 3) { enhFrame(g.now, 3, 2); enhFrame(g.now, 3, 0x23); enhFrame(g.now, 3, 0x01); }   // INFO: 2 bytes
     }
   }
